@@ -370,7 +370,7 @@ func checkConjunctions(c *Ctx, fi *FuncInfo, target map[types.Object]types.Objec
 }
 
 // R02o: no comparison of an expression with itself.
-const ruleTextNoSelfCompare = "no self-comparison: in the differ files no ==/!= has syntactically identical operands (also when both are calls of a pure package-local or standard-library function with identical arguments): such a test is constant, so the change it guards is never (or always) reported"
+const ruleTextNoSelfCompare = "no self-comparison: in the differ files no ==/!= has syntactically identical operands, nor two single-assignment locals computed by the same expression over the same parameter (also when both are calls of a pure package-local or standard-library function with identical arguments): such a test is constant, so the change it guards is never (or always) reported"
 
 func checkNoSelfCompare(c *Ctx, rule string) {
 	n := 0
@@ -387,12 +387,106 @@ func checkNoSelfCompare(c *Ctx, rule string) {
 			bad := ""
 			pos := fi.Decl.Pos()
 			k := 0
+			info := fi.Info()
+			// single-assignment locals: the one expression each of them is computed from
+			defs, ndefs := map[types.Object]ast.Expr{}, map[types.Object]int{}
+			defPos := map[types.Object]token.Pos{}
+			var stores []*ast.AssignStmt
+			ast.Inspect(fi.Decl.Body, func(m ast.Node) bool {
+				switch x := m.(type) {
+				case *ast.AssignStmt:
+					stores = append(stores, x)
+					for i, l := range x.Lhs {
+						id, ok := l.(*ast.Ident)
+						if !ok || id.Name == "_" {
+							continue
+						}
+						o := info.ObjectOf(id)
+						ndefs[o]++
+						if len(x.Rhs) == len(x.Lhs) {
+							defs[o], defPos[o] = x.Rhs[i], x.Pos()
+						} else if i == 0 && len(x.Rhs) == 1 {
+							defs[o], defPos[o] = x.Rhs[0], x.Pos()
+						}
+					}
+				case *ast.RangeStmt:
+					for _, l := range []ast.Expr{x.Key, x.Value} {
+						if id, ok := l.(*ast.Ident); ok {
+							ndefs[info.ObjectOf(id)] += 2
+						}
+					}
+				case *ast.IncDecStmt:
+					if id, ok := x.X.(*ast.Ident); ok {
+						ndefs[info.ObjectOf(id)] += 2
+					}
+				case *ast.UnaryExpr:
+					if id, ok := ast.Unparen(x.X).(*ast.Ident); ok && x.Op == token.AND {
+						ndefs[info.ObjectOf(id)] += 2
+					}
+				}
+				return true
+			})
+			params := map[types.Object]bool{}
+			for _, fld := range fi.Decl.Type.Params.List {
+				for _, nm := range fld.Names {
+					params[info.ObjectOf(nm)] = true
+				}
+			}
+			sameDerivation := func(x, y ast.Expr) bool {
+				ix, ok1 := ast.Unparen(x).(*ast.Ident)
+				iy, ok2 := ast.Unparen(y).(*ast.Ident)
+				if !ok1 || !ok2 {
+					return false
+				}
+				ox, oy := info.ObjectOf(ix), info.ObjectOf(iy)
+				if ox == nil || oy == nil || ox == oy || ndefs[ox] != 1 || ndefs[oy] != 1 || defs[ox] == nil || defs[oy] == nil {
+					return false
+				}
+				if types.ExprString(defs[ox]) != types.ExprString(defs[oy]) {
+					return false
+				}
+				// the common expression reads a parameter, and nothing it reads is stored to between the two computations
+				reads := map[types.Object]bool{}
+				hasParam := false
+				ast.Inspect(defs[ox], func(k ast.Node) bool {
+					if id, ok := k.(*ast.Ident); ok {
+						if o, ok := info.Uses[id].(*types.Var); ok {
+							reads[o] = true
+							if params[o] {
+								hasParam = true
+							}
+						}
+					}
+					return true
+				})
+				if !hasParam {
+					return false
+				}
+				lo, hi := defPos[ox], defPos[oy]
+				if lo > hi {
+					lo, hi = hi, lo
+				}
+				for _, st := range stores {
+					if st.Pos() <= lo || st.Pos() >= hi {
+						continue
+					}
+					for _, l := range st.Lhs {
+						if id := rootIdent(l); id != nil && reads[info.ObjectOf(id)] {
+							return false
+						}
+					}
+				}
+				return true
+			}
 			ast.Inspect(fi.Decl.Body, func(m ast.Node) bool {
 				be, ok := m.(*ast.BinaryExpr)
 				if !ok || (be.Op != token.EQL && be.Op != token.NEQ) {
 					return true
 				}
 				k++
+				if bad == "" && sameDerivation(be.X, be.Y) {
+					bad, pos = types.ExprString(be)+", both computed as "+types.ExprString(defs[info.ObjectOf(ast.Unparen(be.X).(*ast.Ident))]), be.Pos()
+				}
 				if bad == "" && types.ExprString(be.X) == types.ExprString(be.Y) {
 					if _, isLit := ast.Unparen(be.X).(*ast.BasicLit); !isLit {
 						bad, pos = types.ExprString(be), be.Pos()
